@@ -29,14 +29,15 @@
 
     Parameters: [c_H] initial guard count asked for (the constructor turns < 4 into 16), [c_GB] guards per
     extension block (16 in /repo), [c_RB] retired pointers per block (256 in /repo), [c_old] selects the
-    retired_array::extend of before commit 1cc4b4f (regression witness only), [c_spin] fuel of every loop. *)
+    retired_array::extend of before commit 1cc4b4f and [c_oldtail] the free_thread_data of before commit cf24f31
+    (list_tail_ left dangling) -- both for regression witnesses only; [c_spin] fuel of every loop. *)
 From Coq Require Import ZArith NArith List String Bool Lia PeanoNat.
 From LV Require Import Base.Conc Base.Events Model.DhpLang.
 Import ListNotations.
 Local Open Scope string_scope.
 Local Open Scope list_scope.
 
-Record cfg := mkCfg { c_H : nat; c_GB : nat; c_RB : nat; c_old : bool; c_spin : nat; c_nsrc : nat }.
+Record cfg := mkCfg { c_H : nat; c_GB : nat; c_RB : nat; c_old : bool; c_spin : nat; c_nsrc : nat; c_oldtail : bool }.
 
 Definition eff_H (c : cfg) : nat := if Nat.ltb (c_H c) 4 then 16 else c_H c.
 
@@ -674,7 +675,14 @@ Definition alloc_thread_data (c : cfg) (mytid : nat) : P nat :=
   rt_init c r ;;;
   ret r.
 
-(** *** smr::free_thread_data( pRec, callHelpScan ) *)
+(** *** smr::free_thread_data( pRec, callHelpScan ):
+      hazards_.clear(); scan( pRec ); if ( callHelpScan ) help_scan( pRec );
+      if ( retired_.empty()) { retired_.fini(); free_.store( true ); }
+      else { free_block = current_block_->next_;
+             if ( free_block ) { current_block_->next_ = nullptr; list_tail_ = current_block_;   // cf24f31
+                                 while ( free_block ) { next = free_block->next_; retired_allocator_.free( free_block );
+                                                        free_block = next; --block_count_; } } }
+      thread_id_.store( null ); *)
 Definition free_thread_data (c : cfg) (r mytid : nat) (help : bool) : P unit :=
   hp_clear c r ;;;
   scan c r ;;;
@@ -684,7 +692,12 @@ Definition free_thread_data (c : cfg) (r mytid : nat) (help : bool) : P unit :=
    else
      fb <- loc (fun g => match r_cb (grec g r) with
                          | Some cb => let nb := rb_next (grb g cb) in
-                                      (match nb with Some _ => upd_rb g cb (bs_next None) | None => g end, nb)
+                                      (match nb with
+                                       | Some _ =>
+                                           let g1 := upd_rb g cb (bs_next None) in
+                                           if c_oldtail c then g1
+                                           else upd_rec g1 r (fun x => rs_ret (r_cb x) (r_cc x) (r_head x) (Some cb) (r_bcount x) x)
+                                       | None => g end, nb)
                          | None => (g, None)
                          end) ;;
      (fix go (fuel : nat) (p : option nat) : P unit :=
@@ -921,13 +934,13 @@ Definition decode_ops (os : list (list Z)) : list op := flat_map decode_op os.
 
 Definition is_cli_ev (e : nat * ev) : bool := match snd e with EvCli _ _ => true | _ => false end.
 
-(** cfg = [H; GB; RB; old_extend; spin fuel; nsrc; destroy] ; after the scheduled part, when every thread
+(** cfg = [H; GB; RB; old_extend; spin fuel; nsrc; destroy; old_tail] ; after the scheduled part, when every thread
     finished and destroy = 1, smr::destruct( true ) is run by the main thread (index = number of threads): only
     its client events (the disposer calls) are part of the log *)
 Definition run_case (cf : list Z) (ths : list (list (list Z))) (sched : list nat) (fuel : nat)
   : list (nat * ev) * bool :=
   let c := mkCfg (zn' (nth 0 cf 16%Z)) (zn' (nth 1 cf 16%Z)) (zn' (nth 2 cf 256%Z))
-                 (Z.eqb (nth 3 cf 0%Z) 1) (zn' (nth 4 cf 100000%Z)) (zn' (nth 5 cf 4%Z)) in
+                 (Z.eqb (nth 3 cf 0%Z) 1) (zn' (nth 4 cf 100000%Z)) (zn' (nth 5 cf 4%Z)) (Z.eqb (nth 7 cf 0%Z) 1) in
   let destroy := Z.eqb (nth 6 cf 1%Z) 1 in
   let n := List.length ths in
   let r := Conc.run fuel 0 sched (init_cfg fuel c (map decode_ops ths)) in
